@@ -879,9 +879,9 @@ class Interp:
                 self.bind(e.generators[0].target, add_deps(row, rows.deps), env2, cx)
                 outs.append(self.ev(e.elt, env2, cx))
             return V("list", elem=join(outs), items=outs if len(outs) <= 8 else None)
-        self._pushed = 0
+        saved_pushed, self._pushed = getattr(self, "_pushed", 0), 0     # (comprehensions nest: each counts its own)
         env2 = self._comp_env(e.generators, env, cx)
-        pushed = self._pushed
+        pushed, self._pushed = self._pushed, saved_pushed
         el = self.ev(e.elt, env2, cx)
         el = add_deps(el, cx.ctldeps()) if pushed else el
         for _ in range(pushed):
@@ -901,9 +901,9 @@ class Interp:
                 vs.append(self.ev(e.value, env2, cx))
             return V("dict", elem=join(vs), deps=F().union(*[k.deps for k in ks]),
                      kelem=join(ks) if ks and all(k.k == "obj" for k in ks) else None)
-        self._pushed = 0
+        saved_pushed, self._pushed = getattr(self, "_pushed", 0), 0     # (comprehensions nest: each counts its own)
         env2 = self._comp_env(e.generators, env, cx)
-        pushed = self._pushed
+        pushed, self._pushed = self._pushed, saved_pushed
         k = self.ev(e.key, env2, cx)
         v = self.ev(e.value, env2, cx)
         for _ in range(pushed):
